@@ -25,7 +25,9 @@ EXPLANATION = (
     "it has when the failing call is never made, and the command stream stays legal (R5).  Tracking solver: the real "
     "IncrementalTrackingSolver over a probe back-end that refuses one assertion and pushes beyond a depth, 60 call "
     "sequences: later verdicts, `assertions`, last_command / last_result, the backtrack points and the back-end's own "
-    "stack are as when the refused call is never made (R6).")
+    "stack are as when the refused call is never made (R6).  Printing services (serialize, str, to_smtlib in both "
+    "forms): the printer's handler fails at every call in turn; the next texts, of another formula and of the same "
+    "one, are those of a fresh environment (R7).")
 NOT_DECIDED = ["traces inherent to the design (symbols declared by a failing script stay declared; symbols a failed "
                "add_assertion had already declared in the solver process stay declared and show up in later models)",
                "failures injected elsewhere than at handler calls (e.g. inside the walker's own loop)",
@@ -126,6 +128,22 @@ def run(ctx):
             else:
                 rs.unrec("%s (%s): %s" % (name, how, detail[:160]))
         ctx.floor(rs, 16)
+
+    if ctx.want("R7"):
+        rs = ctx.rule("R7", "printing services: after the printer failed at a handler call (every call in turn) the next texts are those of a fresh environment")
+        from . import walk_deep as wd
+        for r in wd.print_failure_results(repo, ctx.tier):
+            if r["kind"] != "ok":
+                rs.unrec("%s on %s: %s" % (r["svc"], r["shape"], "; ".join(r["notes"])[:200]))
+            elif r["bad"]:
+                ctx.finding(rs, "print|%s|%s" % (r["svc"], r["shape"]), "%s on %s: %s" % (r["svc"], r["shape"], r["bad"][0][1]), "pysmt/printers.py")
+            elif r["injections"] == 0:
+                rs.unrec("%s on %s: no injection point reached" % (r["svc"], r["shape"]))
+            else:
+                rs.ok({"service": r["svc"], "skeleton": r["shape"], "failure_points": r["injections"]})
+            for nte in r["notes"][:2]:
+                rs.unrec("%s on %s: %s" % (r["svc"], r["shape"], nte))
+        ctx.floor(rs, 6)
 
     if ctx.want("R6"):
         rs = ctx.rule("R6", "tracking solver: after a call the back-end refused (an assertion, a push) every later call, the assertion list, the recorded last command / result and both stacks are as when the refused call is never made")
